@@ -62,6 +62,8 @@ type call struct {
 	ids    []ident
 	static bool
 	owner  bool
+	ttl    time.Duration // client-side TTL of the call (default 1 h)
+	joined string        // long-flight mode: when the call was issued relative to the owner's TTL instant
 
 	// outcome
 	vals    []string
@@ -93,6 +95,7 @@ const (
 	mCloseExec  = "disconnect-at-exec"
 	mCloseMid   = "disconnect-mid-reply"
 	mCtx        = "owner-ctx-cancelled"
+	mLong       = "flight-longer-than-ttl" // the held request stays in flight for 2x-10x the client TTL; joiners arrive before, at and after the TTL instant
 	sSame       = "same-command"
 	sMultiDups  = "multicache-dups"
 	sMGetOverlp = "mget-overlap"
@@ -107,6 +110,8 @@ type scenario struct {
 	static  bool
 	n       int
 	prepop  bool
+	ttl     time.Duration // mLong: client TTL of every call
+	holdX   int           // mLong: the request is held for holdX * ttl
 	seed    int64
 }
 
@@ -130,7 +135,10 @@ func mkCacheable(c rueidis.Client, i ident, static bool) rueidis.Cacheable {
 }
 
 func doCall(ctx context.Context, client rueidis.Client, c *call) {
-	const ttl = time.Hour
+	ttl := time.Hour
+	if c.ttl > 0 {
+		ttl = c.ttl
+	}
 	c.started = mon.Stamp()
 	c.vals = make([]string, len(c.ids))
 	c.errs = make([]error, len(c.ids))
@@ -419,7 +427,53 @@ func runScenario(t *testing.T, run *mon.Run, sc scenario) {
 			doCall(ctx, client, c)
 		}()
 	}
-	if sc.stagger {
+	if sc.mode == mLong {
+		// the owner's request is held for holdX*ttl of virtual time; joiners are issued before the owner's TTL instant
+		// (t0+ttl), exactly at it, and after it. A pending entry must keep collecting them: its request is still in flight.
+		for _, c := range calls {
+			c.ttl = sc.ttl
+		}
+		t0 := time.Now()
+		launch(calls[0])
+		synctest.Wait()
+		if s.RuleFired(stall) != 1 {
+			run.Inconclusive("the first fetch never reached the server")
+			s.Resume()
+			await(time.Hour, wg.Wait)
+			return
+		}
+		at := []struct {
+			name string
+			off  time.Duration
+		}{{"before-ttl", 0}, {"before-ttl", sc.ttl / 2}, {"at-ttl", sc.ttl}, {"after-ttl", sc.ttl + time.Millisecond}, {"after-ttl", sc.ttl * 3 / 2}, {"after-ttl", sc.ttl*time.Duration(sc.holdX) - time.Millisecond}}
+		// spread the other calls over the instants; there is always one joiner after the TTL instant and (with 3+ callers) one before it
+		slots := make([][]*call, len(at))
+		perm := rng.Perm(len(at))
+		for i, c := range calls[1:] {
+			k := perm[i%len(at)]
+			if i == 0 {
+				k = 3 + rng.Intn(3)
+			} else if i == 1 {
+				k = rng.Intn(2)
+			}
+			slots[k] = append(slots[k], c)
+		}
+		for k, a := range at {
+			if d := a.off - time.Since(t0); d > 0 {
+				time.Sleep(d)
+			}
+			for _, c := range slots[k] {
+				c.joined = a.name
+				launch(c)
+				run.Observe("long_flight_joiners_"+a.name, 1)
+			}
+			synctest.Wait()
+		}
+		if d := sc.ttl*time.Duration(sc.holdX) - time.Since(t0); d > 0 {
+			time.Sleep(d)
+		}
+		run.Observe("long_flight_windows", 1)
+	} else if sc.stagger {
 		launch(calls[0])
 		synctest.Wait()
 		if s.RuleFired(stall) != 1 {
@@ -470,6 +524,10 @@ func runScenario(t *testing.T, run *mon.Run, sc scenario) {
 			if c.done == 0 {
 				stuck = append(stuck, c.String())
 			}
+		}
+		if sc.mode == mLong { // say what the server saw: a duplicate request usually comes with the orphaned waiters
+			hung(fmt.Sprintf("the request was held for %d x ttl (%v) and then answered; these calls never returned: %v; requests seen by the server: %v", sc.holdX, sc.ttl, stuck, view(s.Log()[start:]).requests))
+			return
 		}
 		hung(fmt.Sprintf("after the held request was released / failed (%s) these calls never returned: %v", sc.mode, stuck))
 		return
@@ -526,7 +584,7 @@ func runScenario(t *testing.T, run *mon.Run, sc scenario) {
 		}
 		var cs []string
 		for _, c := range calls {
-			cs = append(cs, fmt.Sprintf("%s -> vals=%q errs=%v", c.String(), c.vals, c.errs))
+			cs = append(cs, fmt.Sprintf("%s %s -> vals=%q errs=%v", c.String(), c.joined, c.vals, c.errs))
 		}
 		m["calls"] = cs
 		return m
@@ -740,7 +798,7 @@ func runRealtime(run *mon.Run, id int, seed int64, flow bool) {
 
 func TestC09(t *testing.T) {
 	run := mon.Start(t, "C09", "fault_enumeration",
-		"one wire (PipelineMultiplex -1), built-in store and NewSimpleCacheAdapter; in a synctest bubble the server holds the first cached request while 1-7 more calls reading overlapping commands arrive (owner first, or all at once), then the request succeeds or fails by: EXEC nil (abort), command refused at queue time (EXECABORT), error reply inside EXEC, error reply on the static-TTL wire, connection killed / closed at EXEC / cut mid-reply, owner's context cancelled; "+
+		"one wire (PipelineMultiplex -1), built-in store and NewSimpleCacheAdapter; in a synctest bubble the server holds the first cached request while 1-7 more calls reading overlapping commands arrive (owner first, or all at once; in the flight-longer-than-ttl mode the hold lasts 2-10x the client TTL of 50 ms-1 s and joiners arrive before, at and after the TTL instant), then the request succeeds or fails by: EXEC nil (abort), command refused at queue time (EXECABORT), error reply inside EXEC, error reply on the static-TTL wire, connection killed / closed at EXEC / cut mid-reply, owner's context cancelled; "+
 			"shapes: n x DoCache(same command), DoMultiCache batches with duplicates, MGET with partial overlap (+ GET / DoMultiCache of the same keys), with and without a warm entry, static-TTL wire; plus real-time -race runs (no stall) on the built-in store; "+
 			"a case = (store, shape, failure mode, arrival order, static, callers, warm entry) in which at least one read was measured to be served by another call's request")
 	defer run.Finish()
@@ -755,7 +813,7 @@ func TestC09(t *testing.T) {
 	}
 	var combos []combo
 	for _, shape := range []string{sSame, sMultiDups, sMGetOverlp} {
-		for _, mode := range []string{mOK, mAbort, mQueueErr, mExecErr, mKill, mCloseExec, mCloseMid, mCtx} {
+		for _, mode := range []string{mOK, mLong, mAbort, mQueueErr, mExecErr, mKill, mCloseExec, mCloseMid, mCtx} {
 			if mode == mQueueErr && shape == sMGetOverlp {
 				continue // a malformed MGET cannot be built through the cache API
 			}
@@ -766,7 +824,7 @@ func TestC09(t *testing.T) {
 		}
 	}
 	for _, shape := range []string{sSame, sMultiDups} {
-		for _, mode := range []string{mOK, mStaticErr, mKill, mCloseExec, mCloseMid, mCtx} {
+		for _, mode := range []string{mOK, mLong, mStaticErr, mKill, mCloseExec, mCloseMid, mCtx} {
 			if mode == mStaticErr && shape != sSame {
 				continue
 			}
@@ -781,6 +839,12 @@ func TestC09(t *testing.T) {
 			for _, store := range []string{"builtin", "adapter"} {
 				stagger := rng.Intn(2) == 0 || cb.mode == mCtx
 				sc := scenario{id: id, store: store, shape: cb.shape, mode: cb.mode, static: cb.static, stagger: stagger, n: 2 + rng.Intn(7), prepop: rng.Intn(3) == 0 && cb.shape != sSame, seed: rng.Int63()}
+				if cb.mode == mLong {
+					sc.n = 3 + rng.Intn(6)
+					sc.prepop = false // a warm entry would expire during the hold
+					sc.ttl = []time.Duration{50 * time.Millisecond, 120 * time.Millisecond, 400 * time.Millisecond, time.Second}[rng.Intn(4)]
+					sc.holdX = 2 + rng.Intn(9)
+				}
 				id++
 				if only := os.Getenv("VERIF_C09_ONLY"); only != "" && only != fmt.Sprint(sc.id) {
 					continue
@@ -798,5 +862,5 @@ func TestC09(t *testing.T) {
 		runRealtime(run, i, rng.Int63(), i%3 == 2)
 	}
 	run.Require("reads_served_by_someone_elses_request", "results_that_were_errors", "refetch_after_failure_checked", "realtime_reads_served_without_own_request",
-		"mode_"+mOK, "mode_"+mAbort, "mode_"+mQueueErr, "mode_"+mExecErr, "mode_"+mStaticErr, "mode_"+mKill, "mode_"+mCloseExec, "mode_"+mCloseMid, "mode_"+mCtx)
+		"mode_"+mOK, "mode_"+mLong, "long_flight_joiners_before-ttl", "long_flight_joiners_at-ttl", "long_flight_joiners_after-ttl", "mode_"+mAbort, "mode_"+mQueueErr, "mode_"+mExecErr, "mode_"+mStaticErr, "mode_"+mKill, "mode_"+mCloseExec, "mode_"+mCloseMid, "mode_"+mCtx)
 }
